@@ -9,6 +9,7 @@ import (
 	"os"
 	"os/exec"
 	"path/filepath"
+	"regexp"
 	"sort"
 	"strings"
 	"sync"
@@ -32,19 +33,19 @@ func (e *Enc) script(o *Obligation) string {
 	}
 	body.WriteString(o.Goal)
 	body.WriteString(o.Guard)
-	for _, raw := range e.w.CS.SMT {
-		if raw.Mode == "" || raw.Mode == e.mode.String() {
-			body.WriteString(raw.Text)
-		}
+	for _, d := range e.decls {
+		body.WriteString(d)
+	}
+	raws := selectRaw(e.w.CS.SMT, e.mode.String(), body.String())
+	for _, r := range raws {
+		body.WriteString(r)
 	}
 	b.WriteString(e.st.prelude(body.String()))
 	for _, d := range e.st.decls {
 		b.WriteString(d + "\n")
 	}
-	for _, raw := range e.w.CS.SMT {
-		if raw.Mode == "" || raw.Mode == e.mode.String() {
-			b.WriteString(raw.Text + "\n")
-		}
+	for _, r := range raws {
+		b.WriteString(r + "\n")
 	}
 	for _, d := range e.decls {
 		b.WriteString(d + "\n")
@@ -156,7 +157,16 @@ type solveResult struct {
 	output  string
 }
 
+// at most this many solver processes run at once (16 cores)
+var solverSlots = make(chan struct{}, 18)
+
 func runSolver(ctx context.Context, sp solverSpec, file string, timeoutS int) solveResult {
+	select {
+	case solverSlots <- struct{}{}:
+		defer func() { <-solverSlots }()
+	case <-ctx.Done():
+		return solveResult{result: "cancelled", backend: sp.name}
+	}
 	t0 := time.Now()
 	args := sp.args(timeoutS)
 	cctx, cancel := context.WithTimeout(ctx, time.Duration(timeoutS+2)*time.Second)
@@ -191,48 +201,49 @@ func runSolver(ctx context.Context, sp solverSpec, file string, timeoutS int) so
 	return solveResult{result: first, backend: sp.name, ms: ms, output: s}
 }
 
-// solveFile: z3-new first with a short budget, then the others in parallel.
-func solveFile(file string, timeoutS int, wantSat bool) solveResult {
+// solveFile: z3-new starts at once; if it has not answered after a second the other back ends join
+// the race. The first definite answer wins. quickOnly: a single short z3-new attempt.
+func solveFile(file string, timeoutS int, quickOnly bool) solveResult {
 	ctx := context.Background()
-	quick := timeoutS / 4
-	if quick < 3 {
-		quick = 3
+	if quickOnly {
+		q := timeoutS / 4
+		if q > 3 {
+			q = 3
+		}
+		if q < 2 {
+			q = 2
+		}
+		return runSolver(ctx, solvers[0], file, q)
 	}
-	if wantSat && quick > 3 {
-		quick = 3
-	}
-	r := runSolver(ctx, solvers[0], file, quick)
-	if r.result == "unsat" || r.result == "sat" || wantSat {
-		return r
-	}
-	firstErr := r
+	t0 := time.Now()
 	cctx, cancel := context.WithCancel(ctx)
 	defer cancel()
 	ch := make(chan solveResult, len(solvers))
-	n := 0
 	for i, sp := range solvers {
-		to := timeoutS
-		if i == 0 {
-			if quick >= timeoutS {
-				continue
+		go func(i int, sp solverSpec) {
+			if i > 0 {
+				select {
+				case <-time.After(time.Duration(1500*i) * time.Millisecond):
+				case <-cctx.Done():
+					ch <- solveResult{result: "cancelled", backend: sp.name}
+					return
+				}
 			}
-		}
-		n++
-		go func(sp solverSpec, to int) { ch <- runSolver(cctx, sp, file, to) }(sp, to)
+			ch <- runSolver(cctx, sp, file, timeoutS)
+		}(i, sp)
 	}
-	var total int64 = r.ms
-	best := firstErr
-	for i := 0; i < n; i++ {
+	best := solveResult{result: "timeout", backend: "all"}
+	for i := 0; i < len(solvers); i++ {
 		x := <-ch
 		if x.result == "unsat" || x.result == "sat" {
-			x.ms += total
+			x.ms = time.Since(t0).Milliseconds()
 			return x
 		}
-		if best.result == "error" && x.result != "error" {
+		if x.result != "cancelled" && (best.backend == "all" || (best.result == "error" && x.result != "error")) {
 			best = x
 		}
 	}
-	best.ms += total
+	best.ms = time.Since(t0).Milliseconds()
 	return best
 }
 
@@ -295,4 +306,55 @@ func sanitizeFile(s string) string {
 		r = r[:150]
 	}
 	return r
+}
+
+var rawSymRe = regexp.MustCompile(`\((?:declare-fun|define-fun|declare-const|declare-sort)\s+(\|[^|]*\||[^\s()]+)|\(declare-datatypes\s+\(\((\|[^|]*\||[^\s()]+)`)
+
+// selectRaw returns the raw SMT blocks (in file order) whose declared symbols are used by the body or by
+// another selected block.
+func selectRaw(blocks []RawSMT, mode, body string) []string {
+	type blk struct {
+		text string
+		syms []string
+		in   bool
+	}
+	var bs []*blk
+	for _, r := range blocks {
+		if r.Mode != "" && r.Mode != mode {
+			continue
+		}
+		b := &blk{text: r.Text}
+		for _, m := range rawSymRe.FindAllStringSubmatch(r.Text, -1) {
+			n := m[1]
+			if n == "" {
+				n = m[2]
+			}
+			b.syms = append(b.syms, n)
+		}
+		bs = append(bs, b)
+	}
+	text := body
+	for changed := true; changed; {
+		changed = false
+		for _, b := range bs {
+			if b.in {
+				continue
+			}
+			for _, sy := range b.syms {
+				if strings.Contains(text, sy) {
+					b.in = true
+					text += b.text
+					changed = true
+					break
+				}
+			}
+		}
+	}
+	var out []string
+	for _, b := range bs {
+		if b.in {
+			out = append(out, b.text)
+		}
+	}
+	return out
 }
